@@ -105,8 +105,15 @@ def gen_case(rng, tier, k):
     if summary and rng.random() < 0.6:
         # build() on networks where an input switches the logic of a module (sibling nodes with equal block variables)
         bnet = common.g_modulated(rng, focus=rng.random() < 0.7)
-    return {"bnet": bnet, "max_motifs": 100000, "ops": ops1, "ops2": ops2, "queries": queries,
+    case = {"bnet": bnet, "max_motifs": 100000, "ops": ops1, "ops2": ops2, "queries": queries,
             "summary": summary}
+    if summary and rng.random() < 0.5:
+        # history before build(): the diagram is (partly) expanded and raw candidate lists (no minification: usually
+        # several candidates per attractor, transient states among them) are cached in the nodes
+        case["prebuild"] = rng.choice(["block-raw", "block-raw", "bfs-raw", "ops-raw", "ops"])
+        if rng.random() < 0.5:
+            case["bnet"] = common.g_compose(rng, extra_max=2)
+    return case
 
 
 def run_hist(case, ops):
@@ -186,6 +193,21 @@ def run_case(case):
     summ = None
     if case.get("summary"):
         sd3 = make_sd(case)
+        pb = case.get("prebuild")
+        if pb:
+            try:
+                if pb == "block-raw":
+                    sd3.expand_block()
+                elif pb == "bfs-raw":
+                    sd3.expand_bfs()
+                else:
+                    for op in case["ops"]:
+                        plain.apply_op(sd3, ni, op)
+                if pb.endswith("raw"):
+                    plain.apply_op(sd3, ni, ["rawcands", "all"])
+            except RuntimeError:
+                pass
+            tags.append("summary:prebuild:" + pb)
         sd3.build()
         summ = sd3.summary()
         lines.append("ATTRS")
